@@ -633,7 +633,11 @@ public:
 #if CFLOAT_THROW_ARITHMETIC_EXCEPTION
 		if (rhs.iszero()) throw cfloat_divide_by_zero();
 		if (rhs.isnan()) throw cfloat_divide_by_nan();
-		if (isnan()) throw cfloat_operand_is_nan();
+		if (isnan(NAN_TYPE_SIGNALLING)) throw cfloat_operand_is_nan();
+		if (isnan(NAN_TYPE_QUIET)) {
+			setnan(NAN_TYPE_QUIET);
+			return *this;
+		}
 #else
 		if (isnan(NAN_TYPE_SIGNALLING) || rhs.isnan(NAN_TYPE_SIGNALLING)) {
 			setnan(NAN_TYPE_SIGNALLING);
